@@ -81,6 +81,9 @@ instance : IntScore Float32 where
 /-- does the tree's `esl_sq_Copy` validate the text before digitising it? (mirrors the code under check) -/
 def sqCopyGuard : Bool := true
 
+/-- does the tree's `esl_sq_GetFromMSA` allocate a NULL `sq->ss` to the exact SS-line length? (mirrors the code under check) -/
+def getFromMSAExactSs : Bool := true
+
 def doDigitize (s : S) (a : Alphabet) (txt : List Nat) : S × String :=
   let (st, d) := a.digitize (cstr txt)
   ({ s with d := some d, L := d.length - 2 }, outDsq s!"st={st.name}" (some d))
@@ -342,6 +345,44 @@ def step (s : S) (line : String) : S × String :=
     | some none => (s, "fault")
     | some (some f) => (s, s!"ok f={",".intercalate (f.map fnum)}")
     | none => (s, s!"erange f={",".intercalate (f0.map fnum)}")
+  else if op == "sqget2" then
+    -- two successive esl_sq_GetFromMSA calls into the same ESL_SQ, esl_sq_Reuse in between
+    let ssS := fun (x : Option (List Nat)) => match x with | some v => hx v | none => "null"
+    let digital := arg? ws "mode" == some "digital"
+    let r1 := argBytes ws "row1"; let r2 := argBytes ws "row2"
+    let s1 := (argHex? ws "ss1").map fun b => b.map (·.toNat)
+    let s2 := (argHex? ws "ss2").map fun b => b.map (·.toNat)
+    let badss := fun (x : Option (List Nat)) (r : List Nat) => match x with | some v => v.length ≠ r.length || v.contains 0 | none => false
+    if badss s1 r1 || badss s2 r2 || r1.isEmpty || r2.isEmpty then (s, "bad-op") else
+    if digital && (r1 ++ r2).any (· ≥ a.Kp) then (s, "bad-op") else
+    if !digital && (r1 ++ r2).contains 0 then (s, "bad-op") else
+    let get := fun (r : List Nat) (ss old : Option (List Nat)) =>
+      if digital then Sq.getDigital a (SENTINEL :: r ++ [SENTINEL]) ss old else Sq.getText r ss old
+    -- allocation side: esl_sq_Create / esl_sq_CreateDigital start with salloc = 256 and no ss buffer
+    if (Sq.getAllocRun getFromMSAExactSs (if digital then 2 else 1) { salloc := Sq.eslSQ_SEQCHUNK, ssCap := none }
+          [(r1.length, s1.isSome), (r2.length, s2.isSome)]).isNone then (s, "fault") else
+    match get r1 s1 none with
+    | none => (s, "fault")
+    | some f1 =>
+      match get r2 s2 (Sq.reuseSs f1.ss) with
+      | none => (s, "fault")
+      | some f2 => (s, s!"ok n1={f1.n} seq1={hx f1.seq} ss1={ssS f1.ss} n2={f2.n} seq2={hx f2.seq} ss2={ssS f2.ss}")
+  else if op == "sqfetch" then
+    let ss := (argHex? ws "ss").map fun b => b.map (·.toNat)
+    let ssS := fun (x : Option (List Nat)) => match x with | some v => hx v | none => "null"
+    let digital := arg? ws "mode" == some "digital"
+    let row := argBytes ws "row"
+    if (match ss with | some v => v.length ≠ row.length || v.contains 0 | none => false) then (s, "bad-op") else
+    if digital then
+      if row.any (· ≥ a.Kp) then (s, "bad-op") else
+      match Sq.fetchDigital a (SENTINEL :: row ++ [SENTINEL]) ss with
+      | none => (s, "fault")
+      | some f => (s, s!"ok n={f.n} seq={hx f.seq} ss={ssS f.ss}")
+    else
+      if row.contains 0 then (s, "bad-op") else
+      match Sq.fetchText row ss with
+      | none => (s, "fault")
+      | some f => (s, s!"ok n={f.n} seq={hx f.seq} ss={ssS f.ss}")
   else if op == "sqcopy" then
     let bytes := argBytes ws "hex"
     let toDig := arg? ws "to" == some "digital"
